@@ -417,13 +417,18 @@ def _direct_weibull(spec, ctx, cc):
                 col = int(np.argmin(np.abs(t[j] - tau[j, 0])))
                 tt[j, col] = tau_t[j, 0].double()
         ob = torch.tensor(obs)
+        # the censoring indicator is the weight of the event tensor: boolean as the readers build it, or 0/1 numbers (accepted weights)
+        ind_dtype = (torch.bool, torch.bool, torch.int64, torch.float32)[(i // 3) % 4]
+        if ind_dtype is not torch.bool:
+            ob = ob.to(ind_dtype)
+            ctx.count("weibull_cases_with_numeric_censoring_indicator")
         x = WeightedTensor(tt, ob)
         nu_t, rho_t, xi_t = torch.tensor(nu, dtype=dpop), torch.tensor(rho, dtype=dpop), torch.tensor(xi, dtype=dind)
         sh_t = None if shifts is None else torch.tensor(shifts, dtype=torch.float32 if dmode != "params64" else torch.float64)
         fam = WeibullRightCensoredFamily if sh_t is None else WeibullRightCensoredWithSourcesFamily
         params = (nu_t, rho_t, xi_t, tau_t) + (() if sh_t is None else (sh_t,))
         named = dict(event=x, nu=nu_t, rho=rho_t, xi=xi_t, tau=tau_t, **({} if sh_t is None else {"survival_shifts": sh_t}))
-        case = {"index": i, "family": "weibull", "with_shifts": sh_t is not None, "dtype": dmode, "tau_classes": classes, "peaked_rho": peaked,
+        case = {"index": i, "family": "weibull", "with_shifts": sh_t is not None, "dtype": dmode, "indicator_dtype": str(ind_dtype), "tau_classes": classes, "peaked_rho": peaked,
                 "t": cc._np(tt), "observed": obs, "nu": cc._np(nu_t), "rho": cc._np(rho_t), "xi": cc._np(xi_t), "tau": cc._np(tau_t),
                 "shifts": None if sh_t is None else cc._np(sh_t)}
         ctx.evaluated()
